@@ -171,6 +171,12 @@ fn client_bin() -> String {
     format!("{}/roughenough-client", dir)
 }
 
+/// a classic Roughtime *response* (what another process's server may send to a reused port): six tags SIG NONC PATH SREP CERT INDX
+fn looks_like_response(d: &[u8]) -> bool {
+    let m = if d.starts_with(b"ROUGHTIM") && d.len() >= 12 { &d[12..] } else { d };
+    d.len() < 1000 && m.len() >= 28 && m[0..4] == [6, 0, 0, 0] && &m[24..28] == b"SIG\0"
+}
+
 /// run the real client once; `respond(j, request_j, all_requests_so_far) -> datagram to send`
 pub fn run_client(spec: &RunSpec, respond: &mut dyn FnMut(usize, &[u8]) -> Vec<u8>) -> RunResult {
     let sock = UdpSocket::bind("127.0.0.1:0").unwrap();
@@ -196,7 +202,15 @@ pub fn run_client(spec: &RunSpec, respond: &mut dyn FnMut(usize, &[u8]) -> Vec<u
     let mut addrs = vec![];
     let mut buf = vec![0u8; 4096];
     for _ in 0..spec.nreq {
-        match sock.recv_from(&mut buf) {
+        // (a stray datagram from another test process on this host — always a *response* — is not the client's
+        // request: see util::recv_from_port)
+        let got = loop {
+            match sock.recv_from(&mut buf) {
+                Ok((n, _)) if looks_like_response(&buf[..n]) => continue,
+                other => break other,
+            }
+        };
+        match got {
             Ok((n, a)) => {
                 requests.push(buf[..n].to_vec());
                 addrs.push(a);
